@@ -89,43 +89,11 @@ func ParseBlock(toks []string) (*BlockSpec, error) {
 	bs.Height = uint32(r.num())
 	ntx := r.num()
 	for i := 0; i < ntx && r.err == nil; i++ {
-		tx := TxSpec{ID: r.next(), Kind: r.next()}
-		tx.PVer = byte(r.num())
-		tx.Nonce = r.next()
-		nin := r.num()
-		for j := 0; j < nin && r.err == nil; j++ {
-			p := strings.Split(r.next(), ":")
-			if len(p) != 2 {
-				return nil, errors.New("bad input")
-			}
-			ix, err := strconv.ParseUint(p[1], 10, 16)
-			if err != nil {
-				return nil, err
-			}
-			tx.Ins = append(tx.Ins, InSpec{p[0], uint16(ix)})
+		tx, err := parseTx(r)
+		if err != nil {
+			return nil, err
 		}
-		nout := r.num()
-		for j := 0; j < nout && r.err == nil; j++ {
-			p := strings.Split(r.next(), ":")
-			if len(p) != 3 {
-				return nil, errors.New("bad output")
-			}
-			a, err1 := strconv.Atoi(p[0])
-			v, err2 := strconv.ParseInt(p[1], 10, 64)
-			if err1 != nil || err2 != nil {
-				return nil, errors.New("bad output")
-			}
-			tx.Outs = append(tx.Outs, OutSpec{a, v, p[2]})
-		}
-		nph := r.num()
-		for j := 0; j < nph && r.err == nil; j++ {
-			tx.PHashes = append(tx.PHashes, r.next())
-		}
-		npd := r.num()
-		for j := 0; j < npd && r.err == nil; j++ {
-			tx.PDatas = append(tx.PDatas, r.next())
-		}
-		bs.Txs = append(bs.Txs, tx)
+		bs.Txs = append(bs.Txs, *tx)
 	}
 	if r.err != nil {
 		return nil, r.err
@@ -134,6 +102,62 @@ func ParseBlock(toks []string) (*BlockSpec, error) {
 		return nil, errors.New("trailing tokens")
 	}
 	return bs, nil
+}
+
+// ParseTx parses one transaction specification (all tokens must be consumed).
+func ParseTx(toks []string) (*TxSpec, error) {
+	r := &tokReader{t: toks}
+	tx, err := parseTx(r)
+	if err != nil {
+		return nil, err
+	}
+	if r.err != nil {
+		return nil, r.err
+	}
+	if len(r.t) != 0 {
+		return nil, errors.New("trailing tokens")
+	}
+	return tx, nil
+}
+
+func parseTx(r *tokReader) (*TxSpec, error) {
+	tx := &TxSpec{ID: r.next(), Kind: r.next()}
+	tx.PVer = byte(r.num())
+	tx.Nonce = r.next()
+	nin := r.num()
+	for j := 0; j < nin && r.err == nil; j++ {
+		p := strings.Split(r.next(), ":")
+		if len(p) != 2 {
+			return nil, errors.New("bad input")
+		}
+		ix, err := strconv.ParseUint(p[1], 10, 16)
+		if err != nil {
+			return nil, err
+		}
+		tx.Ins = append(tx.Ins, InSpec{p[0], uint16(ix)})
+	}
+	nout := r.num()
+	for j := 0; j < nout && r.err == nil; j++ {
+		p := strings.Split(r.next(), ":")
+		if len(p) != 3 {
+			return nil, errors.New("bad output")
+		}
+		a, err1 := strconv.Atoi(p[0])
+		v, err2 := strconv.ParseInt(p[1], 10, 64)
+		if err1 != nil || err2 != nil {
+			return nil, errors.New("bad output")
+		}
+		tx.Outs = append(tx.Outs, OutSpec{a, v, p[2]})
+	}
+	nph := r.num()
+	for j := 0; j < nph && r.err == nil; j++ {
+		tx.PHashes = append(tx.PHashes, r.next())
+	}
+	npd := r.num()
+	for j := 0; j < npd && r.err == nil; j++ {
+		tx.PDatas = append(tx.PDatas, r.next())
+	}
+	return tx, r.err
 }
 
 func unhexData(s string) []byte {
